@@ -4,6 +4,7 @@ go 1.23
 
 require (
 	github.com/hujm2023/go-sms-protocol v0.0.0
+	golang.org/x/text v0.14.0
 	pgregory.net/rapid v1.3.0
 )
 
@@ -12,7 +13,6 @@ require (
 	github.com/valyala/bytebufferpool v1.0.0 // indirect
 	golang.org/x/exp v0.0.0-20231110203233-9a3e6036ecaa // indirect
 	golang.org/x/sync v0.5.0 // indirect
-	golang.org/x/text v0.14.0 // indirect
 )
 
 replace github.com/hujm2023/go-sms-protocol => /repo
